@@ -14,6 +14,7 @@ import (
 	ocispec "github.com/opencontainers/image-spec/specs-go/v1"
 	"oras.land/oras-go/v2/content"
 	"oras.land/oras-go/v2/errdef"
+	"oras.land/oras-go/v2/registry"
 	"verif/harness/vh"
 )
 
@@ -156,6 +157,38 @@ func (w *srcW) Predecessors(ctx context.Context, d ocispec.Descriptor) ([]ocispe
 	w.e.tr.Emit(map[string]any{"e": "predE", "n": n, "err": err != nil, "res": vh.Ints(res)})
 	w.e.after()
 	return ps, err
+}
+
+// srcRefW is the source wrapper for a source that lists referrers itself (registry.ReferrerLister): the filters of
+// ExtendedCopy then take their fast path through Referrers.
+type srcRefW struct {
+	*srcW
+	rl registry.ReferrerLister
+}
+
+func (w *srcRefW) Referrers(ctx context.Context, d ocispec.Descriptor, artifactType string, fn func([]ocispec.Descriptor) error) error {
+	n := w.e.g.NodeOf(d)
+	w.e.tr.Emit(map[string]any{"e": "predB", "n": n})
+	w.e.s.Gate("pred", n)
+	if err := ctx.Err(); err != nil {
+		w.e.ctxFail()
+		w.e.tr.Emit(map[string]any{"e": "predE", "n": n, "err": true, "res": []int{}})
+		return err
+	}
+	if _, ok := w.e.take("pred", n); ok {
+		w.e.tr.Emit(map[string]any{"e": "predE", "n": n, "err": true, "res": []int{}})
+		return ErrInjected
+	}
+	var res []int
+	err := w.rl.Referrers(ctx, d, artifactType, func(ds []ocispec.Descriptor) error {
+		for _, p := range ds {
+			res = append(res, w.e.g.NodeOf(p))
+		}
+		return fn(ds)
+	})
+	w.e.tr.Emit(map[string]any{"e": "predE", "n": n, "err": err != nil, "res": vh.Ints(res)})
+	w.e.after()
+	return err
 }
 
 // dstW wraps the destination. It is a Target.
